@@ -17,7 +17,19 @@
 (* (variant token -> the token it differs from in one field).  A probe     *)
 (* record carries either `by' (the token of the rule named by the block    *)
 (* error, "pass" if admitted) or `hit' (refused or not, where a refusal    *)
-(* names no rule).  A mismatch is printed once per trace                   *)
+(* names no rule).                                                         *)
+(* PARAMETER SWEEP: in a scenario whose "new" event carries `params' the   *)
+(* tokens P1, P2, ... are PARAMETRIC: params[P] is the rule record the     *)
+(* driver built the rule from.  WHICH of them are valid is decided here    *)
+(* (RuleStore!ValidRule, through IsValidEl), not by the driver; a valid    *)
+(* one must be reported by the getters and ENFORCED: the probes of such a  *)
+(* scenario carry `kind' - "req" (requests of b units at one instant on an *)
+(* idle resource, each with its answer), "trip" (n requests complete       *)
+(* together, `fails' of them with an error, then two observed requests),   *)
+(* "eject" (the same against one node of an outlier resource) - and are    *)
+(* judged request by request with RuleStore!Verdict / Trips / Ejects on    *)
+(* the records of the rules in force.                                      *)
+(* A mismatch is printed once per trace                                    *)
 (* ("MISMATCH <trace> <line> <json>") and the rest of that trace skipped.  *)
 (***************************************************************************)
 EXTENDS RuleStore, Json
@@ -44,7 +56,8 @@ TNew ==
     /\ IsEvent("new")
     /\ tr' = Ev.tr
     /\ d' = [perRes |-> Ev.perres, invalid |-> ToSet(Ev.invalid), rejects |-> Ev.rejects, ordered |-> Ev.ordered,
-             near |-> Ev.near, probes |-> Ev.probes, mod |-> Ev.mod]
+             near |-> Ev.near, probes |-> Ev.probes, mod |-> Ev.mod,
+             params |-> IF Has(Ev, "params") THEN Ev.params ELSE << >>]
     /\ want' = [r \in ToSet(Ev.res) |-> << >>]
     /\ lastOf' = [s \in ToSet(Ev.res) \cup {All} |-> None]
     /\ failed' = FALSE
@@ -54,7 +67,38 @@ TNew ==
 W(w, r) == IF r \in DOMAIN w THEN w[r] ELSE << >>
 RepOK(e, w)    == Has(e, "rep") => \A r \in DOMAIN e.rep : SameRules(d, e.rep[r], W(w, r))
 AllOK(e, w)    == \A r \in DOMAIN e.all : SameRules(d, e.all[r], W(w, r))
-ProbeOK(p, w)  == IF Has(p, "hit") THEN p.hit = ProbeBlocked(W(w, p.res), ToSet(d.probes[p.p]))
+\* ---- parameter sweep: the rules in force are enf (elements whose tokens are parametric), their records Rec(e)
+Rec(e) == d.params[Tok(e)]
+MinOf(S) == CHOOSE x \in S : \A y \in S : x <= y
+\* does the rule at position j see the requests of probe p?  (a hotspot rule reads the attachment named by ITS key;
+\* the probe aimed at token p.tok carries only that one)
+Sees(enf, j, p) == d.mod # "hotspot" \/ (Tok(enf[j]) = p.tok /\ Rec(enf[j]).key)
+\* request i of a "req" probe and all later ones: g / per = RuleStore's probe state (admitted by all / let pass per rule)
+RECURSIVE ReqWalk(_, _, _, _, _)
+ReqWalk(enf, p, i, g, per) ==
+    IF i > Len(p.reqs) THEN TRUE
+    ELSE LET q    == p.reqs[i]
+             J    == DOMAIN enf
+             v    == [j \in J |-> IF Sees(enf, j, p) THEN Verdict(d.mod, Rec(enf[j]), p.env, g, per[j], q.b) ELSE "admit"]
+             \* positions the answer may name: a rule carrying that token that does not admit the request, no definite
+             \* refusal in front of it (where list order is observable); "?" = a refusal that names no rule at all
+             cand == {j \in J : /\ (Tok(enf[j]) = q.by \/ q.by = "?") /\ v[j] # "admit"
+                                /\ (d.ordered => \A k \in 1..(j - 1) : v[k] # "refuse")}
+             ok   == IF q.by = "pass" THEN \A j \in J : v[j] # "refuse" ELSE cand # {}
+             jj   == IF q.by = "pass" \/ cand = {} THEN Len(enf) + 1 ELSE MinOf(cand)
+             per2 == [j \in J |-> IF Sees(enf, j, p) /\ j < jj /\ d.ordered THEN PassBy(d.mod, Rec(enf[j]), per[j], q.b) ELSE per[j]]
+             g2   == IF q.by = "pass" THEN [units |-> g.units + q.b, flight |-> g.flight + 1] ELSE g
+         IN  ok /\ ReqWalk(enf, p, i + 1, g2, per2)
+SweepOK(p, enf) ==
+    CASE p.kind = "req"   -> ReqWalk(enf, p, 1, G0, [j \in DOMAIN enf |-> S0])
+      [] p.kind = "trip"  -> \* every breaker is closed when the probe starts; afterwards the first rule (list order) that trips refuses
+                             /\ \A i \in DOMAIN p.adm : p.adm[i] = "pass"
+                             /\ LET hits == SelectSeq(enf, LAMBDA e : Trips(Rec(e), p.n, p.fails, p.rt))
+                                    exp  == IF hits = << >> THEN "pass" ELSE Tok(hits[1])
+                                IN  \A i \in DOMAIN p.obs : p.obs[i] = exp
+      [] p.kind = "eject" -> p.hit = (\E i \in DOMAIN enf : Ejects(Rec(enf[i]), p.n, p.fails, p.rt, p.nodes))
+ProbeOK(p, w)  == IF Has(p, "kind") THEN SweepOK(p, W(w, p.res))
+                  ELSE IF Has(p, "hit") THEN p.hit = ProbeBlocked(W(w, p.res), ToSet(d.probes[p.p]))
                   ELSE p.by \in ProbeAnswers(d, W(w, p.res), ToSet(d.probes[p.p]))
 ProbesOK(e, w) == \A i \in DOMAIN e.probes : ProbeOK(e.probes[i], w)
 \* probes answered by a rule that is not in force although a NEAR-EQUAL variant of it is (same resource): the
@@ -94,7 +138,7 @@ TOp ==
 
 TInit ==
     /\ l = 1 /\ tr = 0 /\ failed = FALSE
-    /\ d = [perRes |-> TRUE, invalid |-> {}, rejects |-> FALSE, ordered |-> TRUE, near |-> << >>, probes |-> << >>, mod |-> ""]
+    /\ d = [perRes |-> TRUE, invalid |-> {}, rejects |-> FALSE, ordered |-> TRUE, near |-> << >>, probes |-> << >>, mod |-> "", params |-> << >>]
     /\ want = << >> /\ lastOf = << >>
     /\ raw = << >> /\ enforced = << >> /\ reported = << >> /\ ret = [changed |-> FALSE, err |-> FALSE]
     /\ ident = FALSE /\ h = << >>
